@@ -78,7 +78,13 @@ def desugar(crate, body):
             while f[0] in ('ref', 'unsize', 'mutated'):
                 f = f[1]
             if f[0] in ('closure', 'fn') and t['args'][0].get('k') in ('copy', 'move'):
-                plans.append((bi, name, 'L', None, 'for_each'))
+                # iterating a constant array (a table of function pointers ..): N known elements, in order
+                it_t = norm(T.operand_term(t['args'][0], bi, len(blk['stmts'])))
+                tbl = _const_table(crate, it_t)
+                if tbl is not None:
+                    plans.append((bi, name, 'U', tbl, 'unroll'))
+                else:
+                    plans.append((bi, name, 'L', None, 'for_each'))
             continue
         if name in CATCH and len(t['args']) == 1:
             if T is None:
@@ -137,6 +143,32 @@ def desugar(crate, body):
         at = t.get('at')
         frame = blk.get('frame', ())
         dest, target, unwind = t['dest'], t['target'], t['unwind']
+        if kind == 'U':
+            # CONST_TABLE.iter().for_each(f)  ==  f(&TABLE[0]); f(&TABLE[1]); ...
+            cpath, cty, n_el = variant
+            cl = new_local(cty)
+            blk['stmts'].append(_assign(cl, {'k': 'use', 'op': {'k': 'const', 'ty': cty, 'val': None, 'path': cpath, 'repr': cpath}}, at))
+            fl = new_local('?fn')
+            blk['stmts'].append(_assign(fl, {'k': 'use', 'op': t['args'][1]}, at))
+            b_exit = new_block([{'k': 'assign', 'place': dest, 'rv': {'k': 'agg', 'ak': 'tuple', 'ops': []}, 'at': at, 'synthetic': 'desugar'}],
+                               {'k': 'goto', 'target': target}, frame)
+            nxt = b_exit
+            for i in reversed(range(n_el)):
+                er = new_local('&?elem')
+                tup = new_local('(?)')
+                unit = new_local('()')
+                rfl = new_local('&mut ?fn')
+                nxt = new_block([_assign(er, {'k': 'ref', 'bk': 'shared', 'place': {'l': cl, 'p': [['constindex', i]]}}, at),
+                                 _assign(tup, {'k': 'agg', 'ak': 'tuple', 'ops': [_mv(er)]}, at),
+                                 _assign(rfl, {'k': 'ref', 'bk': 'shared', 'place': {'l': fl, 'p': []}}, at)],
+                                {'k': 'call', 'func': {'k': 'const', 'ty': '?', 'fn': 'core::ops::function::FnMut::call_mut',
+                                                       'fn_full': '<F as core::ops::function::FnMut<Args>>::call_mut', 'fn_args': [], 'zst': True, 'repr': 'call_mut'},
+                                 'callee': 'core::ops::function::FnMut::call_mut', 'callee_full': '<F as core::ops::function::FnMut<Args>>::call_mut',
+                                 'callee_args': [], 'callee_local': False, 'callee_name': 'call_mut', 'callee_trait': 'core::ops::function::FnMut',
+                                 'resolved_kind': 'unresolved', 'args': [_mv(rfl), _mv(tup)], 'dest': {'l': unit, 'p': []}, 'dest_ty': '()',
+                                 'target': nxt, 'unwind': unwind, 'at': at, 'at_root': t.get('at_root')}, frame)
+            blk['term'] = {'k': 'goto', 'target': nxt, 'at': at}
+            continue
         if kind == 'L':
             # it.for_each(f)  ==  loop { match it.next() { Some(x) => f(x), None => break } }   (std: in order, each once)
             it = new_local('?iter')
@@ -153,12 +185,14 @@ def desugar(crate, body):
             b_head = new_block([_assign(rf, {'k': 'ref', 'bk': 'mut', 'place': {'l': it, 'p': []}}, at)], None, frame)
             b_sw = new_block([_assign(d, {'k': 'discr', 'place': {'l': opt, 'p': []}, 'ty': OPT + '<?>'}, at)], None, frame)
             tup = new_local('(?)')
-            b_call = new_block([_assign(tup, {'k': 'agg', 'ak': 'tuple', 'ops': [_payload(opt, 'Some')]}, at)],
+            rfl = new_local('&mut ?fn')
+            b_call = new_block([_assign(tup, {'k': 'agg', 'ak': 'tuple', 'ops': [_payload(opt, 'Some')]}, at),
+                                _assign(rfl, {'k': 'ref', 'bk': 'shared', 'place': {'l': fl, 'p': []}}, at)],
                                {'k': 'call', 'func': {'k': 'const', 'ty': '?', 'fn': 'core::ops::function::FnMut::call_mut',
                                                       'fn_full': '<F as core::ops::function::FnMut<Args>>::call_mut', 'fn_args': [], 'zst': True, 'repr': 'call_mut'},
                                 'callee': 'core::ops::function::FnMut::call_mut', 'callee_full': '<F as core::ops::function::FnMut<Args>>::call_mut',
                                 'callee_args': [], 'callee_local': False, 'callee_name': 'call_mut', 'callee_trait': 'core::ops::function::FnMut',
-                                'resolved_kind': 'unresolved', 'args': [{'k': 'copy', 'place': {'l': fl, 'p': []}}, _mv(tup)], 'dest': {'l': unit, 'p': []}, 'dest_ty': '()',
+                                'resolved_kind': 'unresolved', 'args': [_mv(rfl), _mv(tup)], 'dest': {'l': unit, 'p': []}, 'dest_ty': '()',
                                 'target': b_head, 'unwind': unwind, 'at': at, 'at_root': t.get('at_root')}, frame)
             blocks[b_head]['term'] = {'k': 'call', 'func': {'k': 'const', 'ty': '?', 'fn': 'core::iter::traits::iterator::Iterator::next', 'fn_full': next_full, 'fn_args': [], 'zst': True, 'repr': 'next'},
                                       'callee': 'core::iter::traits::iterator::Iterator::next', 'callee_full': next_full, 'callee_args': t.get('callee_args', [])[:1],
@@ -327,6 +361,43 @@ def desugar(crate, body):
     nb = Body(j, crate)
     nb.inlined = getattr(body, 'inlined', None)
     return nb
+
+
+def const_array_ops(crate, cpath):
+    """operands' terms of a `const` whose body is one array aggregate, else None"""
+    from .terms import Terms, norm
+    for c in [crate] + list(getattr(crate, 'siblings', []) or []):
+        if c is None:
+            continue
+        cb = c.bodies.get(cpath)
+        if cb is None:
+            cb = next((b for b in c.all_bodies if strip_generics(b.path) == strip_generics(cpath)), None)
+        if cb is None or len(cb.blocks) != 1 or cb.blocks[0]['term']['k'] != 'return':
+            continue
+        T = Terms(cb)
+        r = norm(T.local_term(0, 0, len(cb.blocks[0]['stmts'])))
+        if r[0] in ('array', 'tuple'):
+            return list(r[1])
+    return None
+
+
+def _const_table(crate, it):
+    """it = slice::iter(&CONST) / <[T; N]>::iter(&CONST) / IntoIterator::into_iter(&CONST) -> (const path, type, N)"""
+    x = it
+    for _ in range(4):
+        if x[0] in ('ref', 'deref', 'unsize', 'autoderef'):
+            x = x[1]
+        elif x[0] == 'call' and isinstance(x[1], str) and len(x[2]) == 1 and (x[1].endswith('::iter') or x[1].endswith('IntoIterator>::into_iter')):
+            x = x[2][0]
+        else:
+            break
+    while x[0] in ('ref', 'deref', 'unsize', 'autoderef'):
+        x = x[1]
+    if x[0] == 'const' and x[3]:
+        ops = const_array_ops(crate, x[3])
+        if ops is not None and 0 < len(ops) <= 16:
+            return (x[3], x[1], len(ops))
+    return None
 
 
 def _variant_ctor(crate, path):
